@@ -185,7 +185,7 @@ type sx struct {
 	rlog      []readEvent
 	facts     []loopFact
 	bind      map[string]int64
-	retInLoop bool // the last Return executed was inside the loop being summarised
+	retInLoop bool                  // the last Return executed was inside the loop being summarised
 	loopTouch []map[*symBuf]bufMark // per summarised loop: buffers appended to during the body pass
 }
 
@@ -214,10 +214,10 @@ type readEvent struct {
 
 type loopFact struct {
 	earlySuccess bool // the first iteration can leave the function with a nil error
-	fn     string
-	pos    string
-	deltas map[string]Lin // iteration atom -> advance per iteration
-	reads  []readEvent
+	fn           string
+	pos          string
+	deltas       map[string]Lin // iteration atom -> advance per iteration
+	reads        []readEvent
 }
 
 func (s *sx) note(n string) { s.notes[n] = true }
